@@ -184,6 +184,62 @@ example : ∃ (zd : Bytes → Bytes) (zi : Bytes → Option Bytes),
     fun x => by simp [tail_length],
     by decide⟩
 
+
+/-- ASSUMING zlib as a pair of coupled state machines (`R` relates a deflate state to the inflate state
+    of the other endpoint: from related states, deflate's output ends with the tail behind at least one byte,
+    inflate returns the payload, and the successor states are related again): ANY sequence of messages whose
+    deflate outputs fit, each cut into ANY fragments, arrives unchanged — the bookkeeping of `compression.c`
+    carries nothing from one message to the next. -/
+theorem roundtrip_session_given_zlib_partial {σd σi : Type}
+    (deflate : σd → Bytes → Bytes × σd) (inflate : σi → Bytes → Option (Bytes × σi))
+    (R : σd → σi → Prop)
+    (hz : ∀ sd si, R sd si → ∀ x, ∃ body si', body ≠ [] ∧ (deflate sd x).1 = body ++ tail ∧
+        inflate si (deflate sd x).1 = some (x, si') ∧ R (deflate sd x).2 si')
+    (cut : Bytes → List Bytes) (hcut : ∀ c, cut c ≠ [] ∧ (cut c).flatten = c)
+    (msgs : List Bytes) (sd : σd) (si : σi) (hR : R sd si) (hfit : sessionFits deflate sd msgs) :
+    sessionOk deflate inflate cut sd si msgs := by
+  induction msgs generalizing sd si with
+  | nil => trivial
+  | cons x rest ih =>
+    obtain ⟨hf1, hf2⟩ := hfit
+    obtain ⟨body, si', hne, hb, hi, hR'⟩ := hz sd si hR x
+    have h1 := roundtrip_given_zlib_partial (fun y => (deflate sd y).1) (fun s => (inflate si s).map (·.1))
+      (fun y => by
+        obtain ⟨b, _, hb1, hb2, _, _⟩ := hz sd si hR y
+        exact ⟨b, hb1, hb2⟩)
+      (fun y => by
+        obtain ⟨_, s', _, _, hi2, _⟩ := hz sd si hR y
+        simp [hi2])
+      x hf1
+    obtain ⟨c, hc, _, hfr⟩ := h1
+    have hcb : c = body := by
+      have := compress_ok (fun y => (deflate sd y).1) x body hb hf1
+      rw [this] at hc
+      cases hc; rfl
+    subst hcb
+    simp only [sessionOk, hc]
+    refine ⟨hfr (cut c) (hcut c).1 (hcut c).2, ?_⟩
+    rw [← hb, hi]
+    exact ih (deflate sd x).2 si' hR' hf2
+
+/-- the hypotheses are satisfiable: a stateful "stored" codec that counts messages, one-byte fragments -/
+example : ∃ (deflate : Nat → Bytes → Bytes × Nat) (inflate : Nat → Bytes → Option (Bytes × Nat))
+    (R : Nat → Nat → Prop) (cut : Bytes → List Bytes),
+    (∀ sd si, R sd si → ∀ x, ∃ body si', body ≠ [] ∧ (deflate sd x).1 = body ++ tail ∧
+        inflate si (deflate sd x).1 = some (x, si') ∧ R (deflate sd x).2 si') ∧
+    (∀ c, cut c ≠ [] ∧ (cut c).flatten = c) ∧ R 0 0 ∧
+    sessionFits deflate 0 [[1, 2, 3, 4, 5, 6], [7, 7, 7, 7, 7, 7, 7]] :=
+  ⟨fun n x => ((0 :: x) ++ tail, n + 1), fun n s => some ((s.drop 1).take (s.length - 5), n + 1),
+    fun a b => a = b, fun c => [] :: c.map (fun b => [b]),
+    fun sd si h x => ⟨0 :: x, si + 1, by simp, rfl, by simp [tail_length], by simp [h]⟩,
+    fun c => ⟨by simp, by induction c with
+      | nil => rfl
+      | cons a r ih => simpa using ih⟩,
+    rfl, ⟨by decide, by decide, trivial⟩⟩
+
+/- Full statement of the round trip (FALSE for the code as it is, F37): the same without `hfit` /
+   `sessionFits`.  Witness: `roundtrip_counterexample` below. -/
+
 /-- F37: with the same assumptions about zlib a one-byte payload makes the tail check read outside `dest`,
     and the empty payload is answered with -1 (which `send_frame` then uses as a length). -/
 theorem roundtrip_counterexample :
